@@ -7,26 +7,40 @@ from sa.astx import call_attr, call_name, src, statements, walk_local
 from sa.effects import class_accesses
 from sa.selftest import Mutant, Silent
 from sa.source import AnalysisError, class_assigns, methods
-from sa.props._lib_i import (sect, COMPAT, BlockRaised, FollowModule, Model, NotPure, Raised, bind_methods, class_env, eval_block, is_self_attr, module_env, peval,
-                             words)
+from sa.props._lib_i import (sect, COMPAT, Abstain, BlockRaised, FollowModule, Model, NotPure, Raised, bind_methods, class_env, domain_argument, eval_block, guards_hold,
+                             is_self_attr, kinded, module_env, peval, structural, words)
+from sa.props._lib_c import norm_class
 
 PROPERTY = "C40"
 INCLUDE = [("C16", ("line", "pause"), "SMTP (LineOnlyReceiver) and SMTPClient (LineReceiver) sit on the line receivers of protocols/basic.py; "
             "their framing clauses are necessary for 'any segmentation of the network stream'")]
+RULE_KINDS = {
+    "framing/": "structural", "dispatch/": "structural", "who-may-write/": "structural", "do_DATA/": "structural", "client/sendline-verbatim": "structural",
+    "wiring/": "structural", "filesender-cfg/": "structural", "reader-cfg/": "structural",
+    "reader-guards/": "finite-exhaustive",        # guard sets of the normalised handler over the complete set of line classes (domain argument checked)
+    "stuffing/": "finite-exhaustive", "chunk/": "finite-exhaustive", "terminator/": "finite-exhaustive",
+    "stuffing/writer-semantics (bounded)": "bounded", "terminator/emitted-on-own-line (bounded)": "bounded",
+    "client/": "bounded", "filesender/": "bounded", "reader/": "bounded",
+}
 SMTP = "mail/smtp.py"
 BASIC = "protocols/basic.py"
-TECHNIQUE = "finite evaluation of stuffing rewrite + CFG dominance / who-may-write on DATA mode"
+TECHNIQUE = "CFG/def-use on normalised classes; finite-exhaustive stuffing over classes; bounded scenarios"
 EXPLANATION = (
-    "Writer: SMTPClient.transformChunk (any idiom: replace chain, precompiled class-level regex, carried state) is evaluated on "
-    "every chunking of all bodies over {'.', LF, other} up to length 4 against the RFC 5321 4.5.2 reference (LF -> CRLF, a '.' at "
-    "line start doubled): no '.' elsewhere may be doubled, no other byte changed, every line-start '.' whose line start lies inside "
-    "its chunk doubled; a line-start '.' that is the first byte of a chunk must be doubled too (today it is not: known finding F40). finishedFileTransfer is evaluated for every kind of last byte; smtpState_data, evaluated with recording stand-ins, must hand "
-    "the mail file, the transport and that transformer to FileSender and chain the terminator emitter; FileSender.resumeProducing "
-    "is evaluated call after call (every chunk transformed once, last byte remembered, completion only at EOF). Reader: "
-    "SMTP.dataLineReceived is evaluated line by line with recording messages - private helpers are followed - : end of data exactly "
-    "at b'.', one leading '.' stripped from other dot-lines, every other line delivered, DATA mode survives a refusing message sink; lineReceived dispatches state_<mode> "
-    "and state_DATA is dataLineReceived; self.mode has an allow-list of writers and do_DATA arms DATA mode and the per-message "
-    "state before 354. Not decided: end-to-end body equality, LineOnlyReceiver framing (C16), over-long lines."
+    'STRUCTURAL (for-all paths, on the class with private helpers inlined and temporaries substituted): smtpState_data hand'
+    's FileSender a client method as transform and self.transport as consumer and chains a client method to the Deferred; i'
+    'n FileSender.resumeProducing every read->write path passes the transform, lastSent is taken from the written chunk aft'
+    'er the transform, completion only on the empty-read branch; in the DATA handler every non-terminator path reaches mess'
+    'age.lineReceived after de-stuffing and the terminator is not delivered; lineReceived dispatches state_<mode>, state_DA'
+    'TA is the handler and never reaches the command interpreter; self.mode writers are an allow-list closed over the intra'
+    '-class call graph; do_DATA arms DATA mode and the per-message state before 354; delimiters agree. FINITE-EXHAUSTIVE (d'
+    "omain premise checked on the code): the transformer mentions only '.', CR, LF, rewrites windows of <= 2 source units a"
+    "nd carries one flag, so every body over {'.', LF, other}^<=4 under every chunking is a complete domain - no '.' off a "
+    "line start doubled, no other byte changed, in-chunk line starts stuffed; a chunk-initial line-start '.' is not (known "
+    "finding F40); the handler's guards read the line only by comparison with constants, so {empty, '.', '.'+rest, other} i"
+    "s complete - end of data exactly at '.', one dot stripped; finishedFileTransfer compares its argument with constants o"
+    'nly - every class of last byte. BOUNDED second layer (scenarios with recording stand-ins): wiring, FileSender call aft'
+    'er call, the handler line by line incl. a refusing message sink. Not decided: end-to-end body equality, over-long line'
+    's; LineOnlyReceiver framing is included from C16.'
 )
 ASSUMPTIONS = [
     "bodies are LF-terminated lines without CR and no line exceeds MAX_LENGTH (lineLengthExceeded legitimately leaves DATA mode)",
@@ -132,6 +146,38 @@ def _stuffing_pattern(body: bytes, delim: bytes, cut):
     return re.compile(pat, re.DOTALL)
 
 
+def _transform_domain_argument(f, base_env):
+    """Premise that makes {'.', LF, other}^<=4 x every chunking a complete domain: the transformer mentions no byte other than
+    '.', CR, LF (so all other bytes are treated alike, and CR is excluded by the property), rewrites with patterns of at most two
+    source units (LF '.'), and carries at most one remembered unit of state (a flag computed from the chunk's edge)."""
+    import re as _re
+    consts = []
+    for n in ast.walk(f):
+        if isinstance(n, ast.Constant) and isinstance(n.value, bytes):
+            consts.append(n.value)
+        elif is_self_attr(n) and isinstance(n.ctx, ast.Load) and ("self." + n.attr) in base_env:
+            v = base_env["self." + n.attr]
+            stack = [v]
+            while stack:
+                x = stack.pop()
+                if isinstance(x, (tuple, list)):
+                    stack.extend(x)
+                elif isinstance(x, bytes):
+                    consts.append(x)
+                elif isinstance(x, _re.Pattern) and isinstance(x.pattern, bytes):
+                    consts.append(x.pattern.replace(b"^", b"").replace(b"\\", b"").replace(b"$", b""))
+    extra = sorted({bytes([c]) for k in consts for c in k} - {b".", b"\r", b"\n"})
+    if extra:
+        return False, f"the transformer mentions byte(s) {extra!r} besides '.', CR, LF"
+    if any(len(k.replace(b"\r", b"")) > 2 for k in consts):
+        return False, "a rewrite pattern spans more than two source units"
+    calls = {call_attr(c) for c in ast.walk(f) if isinstance(c, ast.Call)}
+    odd = calls - {"replace", "sub", "resetTimeout", "startswith", "endswith", "len", None}
+    if odd:
+        return False, f"the transformer calls {sorted(odd)!r}"
+    return True, "transformer constants lie in {'.', CR, LF}, patterns span <= 2 source units, state is one edge flag: bodies over {'.', LF, other} of length <= 4 under every chunking cover every window and every carried state"
+
+
 def _check_transform(ctx, cn, f, delim_srv):
     q = f"twisted.mail.smtp.{cn}.{f.name}"
     ctx.functions.add(f"{SMTP}:{cn}.{f.name}")
@@ -155,6 +201,9 @@ def _check_transform(ctx, cn, f, delim_srv):
         return r.value, {k: env[k] for k in env if k.startswith("self.") and k[5:] in state}
 
     init = _initial_state(ctx, cn, state) if state else {}
+    exhaustive, why_dom = _transform_domain_argument(f, base_env)
+    if not exhaustive:
+        ctx.note(f"{q}: domain argument not established ({why_dom}); the chunking evaluation is bounded evidence")
     over = under = None
     n_eval = 0
     for w in words(BODY_ALPHABET, 4):
@@ -180,10 +229,10 @@ def _check_transform(ctx, cn, f, delim_srv):
                 over = over or (body, cut, got, want)
         if over and under:
             break
-    ctx.check(over is None, "stuffing/writer-semantics", q,
+    ctx.check(over is None, kinded("stuffing/writer-semantics", exhaustive), q,
               over and f"body {over[0]!r} read in chunks of sizes {over[1]} is sent as {over[2]!r}; required {over[3]!r}: only LF -> CRLF and doubling of a "
               "'.' at a line start are allowed (a '.' elsewhere must not be doubled, no other byte may change)",
-              detail=f"{n_eval} (body, chunking) pairs over {{'.', LF, 'a'}}^<=4")
+              detail=f"{n_eval} (body, chunking) pairs over {{'.', LF, 'a'}}^<=4; " + why_dom)
     ctx.check(under is None, "chunk/stateful-context", f"{q} | <chunk-local context pattern>",
               under and f"body {under[0]!r} read in chunks of sizes {under[1]} is sent as {under[2]!r} instead of {under[3]!r}: the transformer is applied to each "
               "FileSender read chunk separately and only sees line starts inside the chunk, so a '.' that is the first byte of the message, or the first byte of a "
@@ -239,6 +288,10 @@ def _check_finish(ctx, cn, f, delim_cli, delim_srv):
     ctx.functions.add(f"{SMTP}:{cn}.{f.name}")
     params = [a.arg for a in f.args.args]
     ctx.need(len(params) == 2, f"{q}(self, lastsent)")
+    exhaustive, why_dom = domain_argument([f], inputs={params[1]})
+    consts = {n.value for n in ast.walk(f) if isinstance(n, ast.Constant) and isinstance(n.value, (bytes, str))}
+    exhaustive = exhaustive and {c[-1:] for c in consts if c} <= {b"\n", b"\r", b".", "\n"}
+    rule = kinded("terminator/emitted-on-own-line", exhaustive)
     for last in (b"\n", b"a", b".", b"\r", b"", ""):
         r = eval_block(f.body, {params[1]: last}, record={"self.sendLine", "self.transport.write"})
         wire = b""
@@ -247,9 +300,154 @@ def _check_finish(ctx, cn, f, delim_cli, delim_srv):
                 raise AnalysisError(f"{q}: unrecognised emission {name}{args}")
             wire += args[0] + (delim_cli if name == "self.sendLine" else b"")
         want = (b"" if last == b"\n" else delim_srv) + b"." + delim_srv
-        ctx.check(wire == want, "terminator/emitted-on-own-line", f"{q} | last byte sent {last!r}",
+        ctx.check(wire == want, rule, f"{q} | last byte sent {last!r}",
                   f"after a body whose last transmitted byte is {last!r} the client sends {wire!r}; the server only ends the "
                   f"transfer on a line that is exactly '.', which needs {want!r}")
+
+
+
+# ---- structural layer on the normalised view (private helpers inlined, pure temporaries substituted) -----------------------------
+
+def _norm_method(ctx, rel, cls_name, name, keep):
+    cls = norm_class(ctx, rel, cls_name, keep=keep)
+    for st in ast.walk(cls):
+        if isinstance(st, ast.FunctionDef) and st.name == name:
+            return st
+    raise Abstain(f"{cls_name}.{name} not found in the normalised class")
+
+
+def _struct_wiring(ctx, cn, name):
+    """smtpState_data on the normalised view: the FileSender call names the client's transformer and the transport, and a client
+    method is chained to the Deferred it returns."""
+    f = _norm_method(ctx, SMTP, cn, name, keep=(name, "transformChunk", "finishedFileTransfer", "sendLine", "getMailData"))
+    q = f"twisted.mail.smtp.{cn}.{name}"
+    begins = [c for c in ast.walk(f) if isinstance(c, ast.Call) and call_attr(c) == "beginFileTransfer"]
+    if len(begins) != 1:
+        raise Abstain(f"{len(begins)} beginFileTransfer call sites")
+    b = begins[0]
+    tr = b.args[2] if len(b.args) > 2 else next((k.value for k in b.keywords if k.arg == "transform"), None)
+    ctx.check(tr is not None and is_self_attr(tr) and not (isinstance(tr, ast.Constant)), "wiring/transform-argument", q + " | FileSender transform argument",
+              "the FileSender is started without a client method as transform argument: body lines go out with bare LF and un-stuffed dots")
+    cons = b.args[1] if len(b.args) > 1 else next((k.value for k in b.keywords if k.arg == "consumer"), None)
+    if cons is None:
+        raise Abstain("consumer argument not found")
+    ctx.check(src(cons) == "self.transport", "wiring/consumer-argument", q + " | FileSender consumer argument", f"the body is written to {src(cons)} instead of the connection's transport")
+    adds = [c for c in ast.walk(f) if isinstance(c, ast.Call) and call_attr(c) in ("addCallback", "addCallbacks", "addBoth")]
+    mine = [c for c in adds if c.args and is_self_attr(c.args[0])]
+    if adds and not mine:
+        raise Abstain("callbacks chained to the transfer Deferred are not plain client methods")
+    ctx.check(bool(mine), "wiring/finisher-chained", q + " | callback on the transfer Deferred",
+              "nothing is chained to the Deferred returned by beginFileTransfer: the terminating '.' line is never sent")
+    return (tr.attr if tr is not None and is_self_attr(tr) else None), [c.args[0].attr for c in mine]
+
+
+def _struct_filesender(ctx):
+    f = _norm_method(ctx, BASIC, "FileSender", "resumeProducing", keep=("resumeProducing", "beginFileTransfer", "stopProducing", "pauseProducing"))
+    g = ctx.cfg(f)
+    q = "twisted.protocols.basic.FileSender.resumeProducing"
+    writes = g.find(lambda x: isinstance(x, ast.Call) and call_name(x) == "self.consumer.write")
+    reads = g.ids(lambda n: n.kind == "stmt" and isinstance(n.ast, ast.Assign) and isinstance(n.ast.value, ast.Call) and call_name(n.ast.value) == "self.file.read")
+    if not writes or not reads:
+        raise Abstain("read / write statements of the plain shape `chunk = self.file.read(..)` / `self.consumer.write(chunk)` not found")
+    transforms = g.ids(lambda n: n.kind == "stmt" and isinstance(n.ast, ast.Assign) and isinstance(n.ast.value, ast.Call) and call_name(n.ast.value) == "self.transform")
+    no_transform = []
+    for t in g.ids(lambda n: n.kind == "test" and "self.transform" in src(n.ast)):
+        try:
+            no_transform.append((t, "T" if peval(g.node(t).ast, {"self.transform": None}) else "F"))
+        except (NotPure, Raised):
+            raise Abstain(f"test on the transform not evaluable: {src(g.node(t).ast)}")
+    for w in writes:
+        call = next(x for x in walk_local(g.node(w).ast) if isinstance(x, ast.Call) and call_name(x) == "self.consumer.write")
+        if not (call.args and isinstance(call.args[0], ast.Name)):
+            raise Abstain("written value is not a plain local")
+        var = call.args[0].id
+        tr_ok = [t for t in transforms if src(g.node(t).ast.targets[0]) == var and len(g.node(t).ast.value.args) == 1 and src(g.node(t).ast.value.args[0]) == var]
+        wit = g.path(reads, [w], avoid=set(tr_ok), edge_ok=lambda a, b, l: l != "exc" and (a, l) not in no_transform)
+        ctx.check(wit is None, "filesender-cfg/transform-on-every-path", ctx.construct(q, call),
+                  "a chunk read from the file can reach consumer.write without passing through self.transform although a transform is set", witness=g.describe(wit))
+        lasts = g.ids(lambda n: n.kind == "stmt" and isinstance(n.ast, ast.Assign) and any(is_self_attr(t, "lastSent") for t in n.ast.targets))
+        if not lasts:
+            raise Abstain("no plain assignment to self.lastSent")
+        good = [l for l in lasts if var in {n.id for n in ast.walk(g.node(l).ast.value) if isinstance(n, ast.Name)}]
+        wit = g.must_pass([w], good, exc=False)
+        ctx.check(bool(good) and wit is None, "filesender-cfg/last-byte-after-write", ctx.construct(q, call),
+                  "a chunk can be written without lastSent being updated from it afterwards", witness=g.describe(wit))
+        for l in good:
+            ctx.check(not any(g.path([l], [t]) for t in transforms), "filesender-cfg/last-byte-after-write", ctx.construct(q, g.node(l).ast) + " | after transform",
+                      "lastSent is taken before the chunk is transformed")
+    cbs = g.find(lambda x: isinstance(x, ast.Call) and call_attr(x) == "callback" and (call_name(x) or "").startswith("self.deferred"))
+    for c in cbs:
+        var = src(g.node(reads[0]).ast.targets[0])
+        ctx.check(g.guarded(c, lambda e: src(e) == var, False), "filesender-cfg/completion-only-at-eof", ctx.construct(q, g.node(c).ast),
+                  "completion is signalled on a path on which the last read returned data")
+
+
+def _struct_reader(ctx, cn, name):
+    f = _norm_method(ctx, SMTP, cn, name, keep=(name, "lineReceived", "do_DATA", "sendCode", "_messageHandled", "_disconnect", "lineLengthExceeded"))
+    q = f"twisted.mail.smtp.{cn}.{name}"
+    g = ctx.cfg(f)
+    line = f.args.args[1].arg
+    is_line = lambda e: isinstance(e, ast.Name) and e.id == line  # noqa: E731
+    helper_calls = [c for c in ast.walk(f) if isinstance(c, ast.Call) and (call_name(c) or "").startswith("self._") and call_name(c) not in ("self._messageHandled", "self._disconnect")]
+    if helper_calls:
+        raise Abstain(f"private helper {call_name(helper_calls[0])} could not be inlined")
+    strips = g.ids(lambda n: n.kind == "stmt" and isinstance(n.ast, (ast.Assign, ast.AugAssign)) and any(is_line(t) for t in _targets(n.ast)))
+    ends = g.ids(lambda n: n.kind == "stmt" and isinstance(n.ast, ast.Assign) and any(is_self_attr(t, "mode") for t in n.ast.targets))
+    eoms = g.find(lambda x: isinstance(x, ast.Call) and call_attr(x) == "eomReceived")
+    if not ends or not strips:
+        raise Abstain("mode write / de-stuffing assignment not found")
+    for site in ends + eoms + strips:
+        for t, _ in g.edge_guards(site):
+            if any(g.path([s], [t]) for s in strips):
+                raise Abstain("a guard is evaluated after the line was rewritten")
+    ok_dom, why = domain_argument([f], inputs={line})
+    if not ok_dom:
+        raise Abstain("domain argument fails: " + why)
+    detail = f"line classes {{empty, '.', '.'+rest, other}} are complete: {why}"
+
+    def sat(site):
+        return [c for c in READER_LINES if guards_hold(g, site, {line: c})]
+    in_handler = lambda n: any(g.node(x).kind == "handler" for x in g.dominators().get(n, ()))  # noqa: E731
+    for e in ends + eoms:
+        s_ = sat(e)
+        extra = [c for c in s_ if c != b"."]
+        ctx.check(s_ == [b"."] and not in_handler(e), "reader-guards/terminator", ctx.construct(q, g.node(e).ast),
+                  (f"the end-of-data action is also taken for body line(s) {extra!r}" if extra else
+                   ("the end-of-data action sits in an exception handler (taken when a message object refuses a line)" if in_handler(e) else "the end-of-data action is not taken for the line b'.'"))
+                  + " (the transfer must end exactly at the client's terminating '.')", detail=detail)
+    want = [c for c in READER_LINES if c[:1] == b"." and c != b"."]
+    for sidx in strips:
+        st = g.node(sidx).ast
+        s_ = sat(sidx)
+        bad = None
+        if s_ != want:
+            bad = f"de-stuffing is applied to the wrong set of lines (differs on {sorted(set(s_) ^ set(want))!r})"
+        elif isinstance(st, ast.Assign):
+            for c in want:
+                try:
+                    v = peval(st.value, {line: c})
+                except (NotPure, Raised) as ex:
+                    raise Abstain(f"de-stuffing expression not evaluable ({ex})")
+                if v != c[1:]:
+                    bad = f"the stuffed line {c!r} is delivered as {v!r} instead of {c[1:]!r}"
+                    break
+        else:
+            raise Abstain("de-stuffing statement shape")
+        ctx.check(bad is None, "reader-guards/strip-one-dot", ctx.construct(q, st), bad or "", detail=detail)
+    deliver_calls = g.find(lambda x: isinstance(x, ast.Call) and call_attr(x) == "lineReceived" and len(x.args) == 1 and is_line(x.args[0]))
+    deliver_loops = g.ids(lambda n: n.kind == "for" and any(isinstance(x, ast.Call) and call_attr(x) == "lineReceived" and len(x.args) == 1 and is_line(x.args[0])
+                                                            for b in n.ast.body for x in ast.walk(b)))
+    deliver = set(deliver_calls) | set(deliver_loops)
+    if not deliver:
+        raise Abstain("delivery loop not found")
+    failed = [d for t in g.ids(lambda n: n.kind == "test" and src(n.ast) == "self.datafailed") for d, l in g.succ[t] if l == "T"]
+    wit = g.must_pass([g.entry], deliver | set(ends) | set(failed), exc=False)
+    ctx.check(wit is None, "reader-cfg/delivers-on-every-path", q, "a body line that is not the terminator can be dropped without reaching message.lineReceived", witness=g.describe(wit))
+    for d in sorted(deliver):
+        w = next((g.path([d], [s_]) for s_ in strips if g.path([d], [s_])), None)
+        ctx.check(w is None, "reader-cfg/delivers-on-every-path", ctx.construct(q, g.node(d).ast) + " | after de-stuffing", "the line is delivered before its stuffing dot is removed", witness=g.describe(w))
+        w = g.path(ends, [d], edge_ok=lambda a, b, l: l != "exc")
+        ctx.check(w is None, "reader-cfg/terminator-not-delivered", ctx.construct(q, g.node(d).ast), "the terminating '.' line itself is delivered to the message as body content", witness=g.describe(w))
 
 
 class _Recorder(Model):
@@ -532,6 +730,8 @@ def _check_dispatch(ctx, env):
                     ctx.check(bool(defs), "dispatch/data-mode-handler", f"twisted.mail.smtp.{sc}.{name}",
                               f"{sc}.{name} does not resolve to a method: a body line in DATA mode has no handler")
                     for c2, rf in defs:
+                        with structural(ctx, f"reader-guards/*, reader-cfg/* ({c2})", "reader/* (bounded)"):
+                            _struct_reader(ctx, c2, rf.name)
                         _check_reader(ctx, c2, rf)
                         has_cmd = any(isinstance(x, ast.Call) and (call_attr(x) in ("lookupMethod", "state_COMMAND") or (call_attr(x) or "").startswith("do_"))
                                       for x in ast.walk(rf))
@@ -617,10 +817,14 @@ def check(ctx):
     wired = _definitions(ctx, CLIENT_CLASSES, "smtpState_data")
     ctx.need(wired, "SMTPClient.smtpState_data")
     for cn, f in wired:
+        with structural(ctx, f"wiring/* ({cn})", "client/transform-wired, client/finish-wired (bounded)"):
+            _struct_wiring(ctx, cn, f.name)
         with sect(ctx, f"client wiring / writer ({cn})"):
             _check_wiring(ctx, cn, f, delim_srv, delim_cli)
     with sect(ctx, "client sendLine"):
         _check_sendline(ctx, delim_cli)
+    with structural(ctx, "filesender-cfg/*", "filesender/* (bounded)"):
+        _struct_filesender(ctx)
     with sect(ctx, "FileSender"):
         _check_filesender(ctx)
     with sect(ctx, "server dispatch / reader"):
